@@ -231,7 +231,7 @@ where
                     return result(self, scratch);
                 }
                 Some(b' ') | Some(b'\n') | Some(b'\t') | Some(b'\r') | Some(b')') | Some(b']')
-                | Some(b'(') | Some(b'[') | Some(b';') => {
+                | Some(b'(') | Some(b'[') | Some(b';') | Some(b'"') | Some(b'|') => {
                     if scratch == b"." {
                         return error(self, ErrorCode::InvalidSymbol);
                     }
@@ -389,7 +389,7 @@ impl<'a> SliceRead<'a> {
             let next = self.peek_byte();
             match next {
                 None | Some(b' ') | Some(b'\n') | Some(b'\t') | Some(b'\r') | Some(b')')
-                | Some(b']') | Some(b'(') | Some(b'[') | Some(b';') => {
+                | Some(b']') | Some(b'(') | Some(b'[') | Some(b';') | Some(b'"') | Some(b'|') => {
                     if scratch.is_empty() {
                         // Fast path: return a slice of the raw S-expression without any
                         // copying.
